@@ -15,7 +15,31 @@ BARE_ATOM = re.compile(r'[a-z][A-Za-z0-9_]*\Z')
 BINOPS = ['=', '\\=', '==', '\\==', '<', '>', '=<', '>=']
 
 
+class Raw(str):
+    """an atom with a chosen source spelling: the value is the atom's text, `.raw` what is written"""
+    def __new__(cls, value, raw):
+        o = str.__new__(cls, value)
+        o.raw = raw
+        return o
+
+
+def escaped_spelling(s, rnd, p=0.25):
+    """quoted spelling with redundant backslashes (unquoting drops every backslash)"""
+    out = ["'"]
+    for ch in s:
+        if ch == "'":
+            out.append("\\'")
+        else:
+            if rnd.random() < p:
+                out.append('\\')
+            out.append(ch)
+    out.append("'")
+    return Raw(s, ''.join(out))
+
+
 def atom_text(s, force_quote=False):
+    if isinstance(s, Raw):
+        return s.raw
     if not force_quote and BARE_ATOM.match(s) and s not in ('true', 'fail'):
         return s
     if '\\' in s:
